@@ -178,6 +178,34 @@ pub fn run(ctx: &mut Ctx, _replay: Option<&str>) {
                 attacks.push(Attack { name: format!("expired-with-key-binding-iat-{}", name), args: VerifyArgs { input, fmt, resolver: Resolver::always(KeyId::IssuerEc), aud: Some("https://verifier.example".into()), nonce: Some("n-1".into()) },
                                       expect: Expect::Reject, origin: json!({"hand_built": "expired credential with key binding", "kb_iat": name}), nontrivial: true });
             }
+            // (c) the issuer-signed JWT under other protected headers (typ of another kind of token, kid, cty ...): the window
+            // is that of the payload whatever the header says
+            for typ in ["kb+jwt", "JWT", "vc+sd-jwt", "at+jwt", "dpop+jwt", ""] {
+                for (pname, pl) in [("exp-absent", json!({"iss": "https://issuer.example", "_sd_alg": "sha-256", "sub": "x"})), ("exp-null", json!({"iss": "https://issuer.example", "exp": null, "sub": "x"})),
+                                    ("exp-string", json!({"iss": "https://issuer.example", "exp": format!("{}", now + 5000), "sub": "x"})), ("exp-long-past", json!({"iss": "https://issuer.example", "exp": now - 100000, "sub": "x"})),
+                                    ("nbf-next-year", json!({"iss": "https://issuer.example", "exp": now + 100000, "nbf": now + 31_000_000, "sub": "x"}))] {
+                    if (k + typ.len() + pname.len()) % 2 == 0 {
+                        continue;
+                    }
+                    let jwt = sign_token(&json!({"alg": "ES256", "typ": typ}), &pl, KeyId::IssuerEc, "ES256");
+                    attacks.push(Attack { name: format!("header-typ-{:?}-{}", typ, pname), args: VerifyArgs { input: Parts { jwt, disclosures: vec![], kb: None }.render(fmt), fmt, resolver: Resolver::always(KeyId::IssuerEc), aud: None, nonce: None },
+                                          expect: Expect::Reject, origin: json!({"hand_built": "header typ", "typ": typ, "payload": pname}), nontrivial: true });
+                }
+            }
+            // (d) payload TEXTS that repeat a member name (signed as raw text): outside the window is outside the window
+            for (dname, dup) in [("sub", "\"sub\":\"alice\",\"sub\":\"alice\""), ("iss", "\"iss\":\"https://issuer.example\""), ("jti", "\"jti\":\"a\",\"jti\":\"b\""), ("aud-like", "\"azp\":1,\"azp\":1"), ("nbf", "\"nbf\":1,\"nbf\":1")] {
+                for (wname, window) in [("exp-long-past", format!("\"exp\":{}", now - 100000)), ("exp-just-past", format!("\"exp\":{}", now - 125)), ("exp-absent", "\"x\":1".to_string()), ("exp-string", "\"exp\":\"never\"".to_string()),
+                                        ("nbf-next-year", format!("\"exp\":{},\"nbf\":{}", now + 100000, now + 31_000_000)), ("exp-twice-past-then-future", format!("\"exp\":{},\"exp\":{}", now - 100000, now + 100000)),
+                                        ("exp-twice-future-then-past", format!("\"exp\":{},\"exp\":{}", now + 100000, now - 100000))] {
+                    if (k + dname.len() + wname.len()) % 2 == 1 {
+                        continue;
+                    }
+                    let text = format!("{{\"iss\":\"https://issuer.example\",{},{},\"_sd_alg\":\"sha-256\"}}", dup, window);
+                    let jwt = sign_raw("{\"alg\":\"ES256\"}", &text, KeyId::IssuerEc, "ES256");
+                    attacks.push(Attack { name: format!("payload-repeats-{}-{}", dname, wname), args: VerifyArgs { input: Parts { jwt, disclosures: vec![], kb: None }.render(fmt), fmt, resolver: Resolver::always(KeyId::IssuerEc), aud: None, nonce: None },
+                                          expect: Expect::Reject, origin: json!({"hand_built": "payload text repeating a member name", "repeated": dname, "window": wname}), nontrivial: true });
+                }
+            }
             // control: the same construction inside the window is accepted
             let payload = json!({"iss": "https://issuer.example", "exp": now + 100000, "_sd_alg": "sha-256", "cnf": {"jwk": holder.jwk_json().unwrap()}, "sub": "x"});
             let jwt = sign_payload(&payload, KeyId::IssuerEc);
